@@ -68,7 +68,7 @@ def SInv (cipher : Bytes → Bytes → Bytes) (c : Ctx) (st : Store) (acc : Byte
   ∀ t e, sFind st t = some e →
     acc t = some e.b ∧
     ∃ m seq pm, CStep.send m seq ∈ hist ∧ m.token = t ∧ protectRequest cipher c m seq = some (pm, e.b) ∧
-      e.keep = isRegistration m.opts
+      e.keep = isRegistration m.opts ∧ e.observe = hasObserve m.opts
 
 theorem clientStep_send_none (cipher : Bytes → Bytes → Bytes) (c : Ctx) (st : Store) (m : Msg) (seq : Nat)
     (hp : protectRequest cipher c m seq = none) : clientStep cipher c st (.send m seq) = st := by
@@ -76,7 +76,7 @@ theorem clientStep_send_none (cipher : Bytes → Bytes → Bytes) (c : Ctx) (st 
 
 theorem clientStep_send_some (cipher : Bytes → Bytes → Bytes) (c : Ctx) (st : Store) (m : Msg) (seq : Nat) (pm : Msg)
     (b : Binding) (hp : protectRequest cipher c m seq = some (pm, b)) :
-    clientStep cipher c st (.send m seq) = sSet st ⟨m.token, b, isRegistration m.opts⟩ := by
+    clientStep cipher c st (.send m seq) = sSet st ⟨m.token, b, isRegistration m.opts, hasObserve m.opts⟩ := by
   simp [clientStep, clientSend, hp]
 
 theorem trackStep_send_none (cipher : Bytes → Bytes → Bytes) (c : Ctx) (acc : Bytes → Option Binding) (m : Msg) (seq : Nat)
@@ -93,7 +93,7 @@ theorem SInv_step (cipher : Bytes → Bytes → Bytes) (c : Ctx) (st : Store) (a
     SInv cipher c (clientStep cipher c st s) (trackStep cipher c acc s) (hist ++ [s]) := by
   have weaken : ∀ t e, sFind st t = some e →
       ∃ m seq pm, CStep.send m seq ∈ hist ++ [s] ∧ m.token = t ∧ protectRequest cipher c m seq = some (pm, e.b) ∧
-        e.keep = isRegistration m.opts := by
+        e.keep = isRegistration m.opts ∧ e.observe = hasObserve m.opts := by
     intro t e he
     obtain ⟨_, m, seq, pm, hm, h1, h2, h3⟩ := h t e he
     exact ⟨m, seq, pm, List.mem_append_left _ hm, h1, h2, h3⟩
@@ -113,7 +113,7 @@ theorem SInv_step (cipher : Bytes → Bytes → Bytes) (c : Ctx) (st : Store) (a
       · simp only [ht, if_true] at he
         injection he with he
         subst he
-        refine ⟨by simp [ht], m, seq, pm, by simp, ht, hp, rfl⟩
+        refine ⟨by simp [ht], m, seq, pm, by simp, ht, hp, rfl, rfl⟩
       · simp only [ht, if_false] at he
         have ht' : ¬ t = m.token := fun x => ht x.symm
         refine ⟨?_, weaken t e he⟩
@@ -172,6 +172,22 @@ theorem protectResponse_token (cipher : Bytes → Bytes → Bytes) (c : Ctx) (b 
       injection h with h
       subst h
       rfl
+
+theorem protectResponseFor_token (cipher : Bytes → Bytes → Bytes) (c : Ctx) (b : Binding) (o : Bool) (m : Msg) (ask : Bool)
+    (seq : Nat) (sepMid : Option Nat) (r : Msg) (h : protectResponseFor cipher c b o m ask seq sepMid = some r) :
+    r.token = m.token :=
+  protectResponse_token cipher c b m _ sepMid r h
+
+/-- a registration is an Observe request: a binding that is kept belongs to a request whose responses carry their own
+Partial IV (D14.5) -/
+theorem hasObserve_of_isRegistration (os : List (Nat × Bytes)) (h : isRegistration os = true) : hasObserve os = true := by
+  unfold isRegistration at h
+  unfold hasObserve
+  rw [List.any_eq_true] at h ⊢
+  obtain ⟨o, ho, h2⟩ := h
+  refine ⟨o, ho, ?_⟩
+  simp only [Bool.and_eq_true, decide_eq_true_eq] at h2
+  simp [h2.1]
 
 /-! ### M: libcoap's association list -/
 open Coap.M.Oscore
